@@ -392,9 +392,10 @@ def find_children_for_parent(var_collector: Collector, parent_node: ParentNode, 
         return process_list_breadth_first(var_collector, parent_node, value.args)
     else:
         # not every object has a __dict__ (e.g. bytes, objects using __slots__, locks, generators), and reading
-        # it can run user code - so we must not let this fail the whole snapshot
+        # it can run user code - so we must not let this fail the whole snapshot. We do not read it the normal way:
+        # where there is none that would ask the __getattr__ hook of the application for it
         try:
-            value_dict = value.__dict__
+            value_dict = object.__getattribute__(value, '__dict__')
         except BaseException:
             value_dict = None
         if isinstance(value_dict, dict):
